@@ -192,6 +192,66 @@ def case_ip_write(p):
     return out
 
 
+def case_ip_write_ack(p):
+    """p: ids, fault ('close' | 'garbage' | 'mute'), at (which PUT of the call meets the fault: 2 = the second, if there is one).
+    Every request of a write call that the accessory answered 'all accepted' - and whose answer reached the controller - counts: listeners
+    hear of its readable characteristics whatever happens to later requests of the same call (however many requests the library makes of it)."""
+    import json as _json
+
+    ids = [tuple(x) for x in p["ids"]]
+    out = []
+    rig = IpRig(seed=p.get("seed", 0))
+    try:
+        seen = []
+
+        def put(sess, method, target, headers, body):
+            chars = _json.loads(body).get("characteristics", [])
+            if any("ev" in c for c in chars):
+                return 204, b"", None
+            seen.append([(c["aid"], c["iid"]) for c in chars])
+            if len(seen) == p["at"]:
+                if p["fault"] == "close":
+                    conn = next(c for c in rig.net.conns if getattr(c, "session", None) is sess)
+                    rig.loop.call_soon(conn.peer_close)
+                    return None
+                if p["fault"] == "mute":
+                    return None
+                return 200, b"<html>busy</html>", "application/hap+json"
+            return 204, b"", None
+
+        rig.acc.handler = std_handler({("PUT", "/characteristics"): put})
+        rig.connect()
+        notes = []
+        rig.pairing.dispatcher_connect(lambda ev: notes.append(dict(ev)))
+        vals = {k: (i + 1) for i, k in enumerate(ids)}
+        try:
+            rig.run(rig.pairing.put_characteristics([(a, i, vals[(a, i)]) for a, i in ids]), horizon=120.0)
+            raised = None
+        except Exception as e:  # noqa: BLE001
+            raised = type(e).__name__
+        rig.loop.run_until_idle()
+        notified = {}
+        for ev in notes:
+            notified.update(ev)
+        acked = [k for n, req in enumerate(seen, 1) if n != p["at"] for k in req]
+        det = {"ids": ids, "fault": p["fault"], "at": p["at"], "requests_made": [list(map(list, r)) for r in seen], "raised": raised}
+        for k in acked:
+            if k in READABLE and k not in notified:
+                out.append(("ip:listener-not-notified-of-a-write-the-accessory-accepted-and-acknowledged", dict(det, key=k)))
+            elif k in notified and notified[k] != {"value": vals[k]}:
+                out.append(("ip:listener-notified-with-wrong-value", dict(det, key=k, got=notified[k])))
+        failed = seen[p["at"] - 1] if len(seen) >= p["at"] else []
+        for k in failed:
+            if k in notified:
+                out.append(("ip:listener-notified-of-a-write-that-was-never-acknowledged", dict(det, key=k)))
+        if len(seen) >= p["at"] and raised is None:
+            out.append(("ip:write-completes-though-a-request-of-it-went-unanswered", det))
+    finally:
+        rig.close()
+    p["_n"] = 1
+    return out
+
+
 def build_read_reply(ids, statuses, shape, malformed, dup, gstatus):
     entries = []
     for (a, i), s in zip(ids, statuses):
@@ -385,7 +445,7 @@ def case_ip_read(p):
     return out
 
 
-CASES = {"ip_write": case_ip_write, "ip_read": case_ip_read, "ip_read_overlap": case_ip_read_overlap, "ip_read_big": case_ip_read_big}
+CASES = {"ip_write_ack": case_ip_write_ack, "ip_write": case_ip_write, "ip_read": case_ip_read, "ip_read_overlap": case_ip_read_overlap, "ip_read_big": case_ip_read_big}
 for _mod in ("c13_coap", "c13_ble"):
     try:
         _m = __import__(f"vt.props.{_mod}", fromlist=["CASES"])
@@ -472,6 +532,11 @@ def plan(tier):
                     work.append(("ip_read", {"ids": ids, "replies": reps[i : i + 150], "container": cont}))
                 work.append(("ip_read", {"ids": ids, "replies": reps[i : i + 150], "wire": "chunked-lower", "env": dict(delivery="bytes", frames=[7])}))
                 work.append(("ip_read", {"ids": ids, "replies": reps[i : i + 150], "env": dict(delivery="3/4", frames=[48])}))
+    # a fault at the k-th request a write call makes (k = 1: the only one, if the library sends one request; k = 2, 3: only if it splits)
+    for ids in WRITE_SETS + [[(2, 9), (1, 9)], [(1, 9), (2, 9), (1, 10), (2, 10)], [(2, 10), (2, 9), (1, 10)]]:
+        for fault in ("close", "garbage", "mute"):
+            for at in (1, 2, 3):
+                work.append(("ip_write_ack", {"ids": ids, "fault": fault, "at": at}))
     # big reads (bridge polls): if the library splits them, a request-wide error belongs to its own request
     for n_ in (10, 48, 49, 97, 150, 400):
         for fail_at in (None, 0, 1, 2, 3):
